@@ -26,6 +26,7 @@ EXPLANATION = (
     "action: received PDUs are pre-validated inside the Evt19 guard and DIMSE decoding is guarded. "
     "Not decided: which (user event, state) pairs the local association thread can produce under all "
     "interleavings."
+    ' Second session: action effects are interprocedural (a call to another fsm function that is handed the provider is expanded, forks included); artim-progress: no cycle of peer-driven events through (state, ARTIM running) pairs may restart the timer, otherwise the peer postpones Evt18 indefinitely.'
 )
 
 PDU_EVENTS = {"Evt3", "Evt4", "Evt6", "Evt10", "Evt12", "Evt13", "Evt16"}
